@@ -65,6 +65,7 @@ else:
 
 import allmydata.util.cputhreadpool as _ctp  # noqa: E402
 _ctp._DISABLED = True
+CPU_DELAY = [0.0]
 
 if os.environ.get("VERIF_ASYNC_CPU"):
     # In production defer_to_thread() completes in a later reactor turn, so two operations started back to back on
@@ -73,9 +74,13 @@ if os.environ.get("VERIF_ASYNC_CPU"):
     # importing vreactor): the work still runs in the reactor thread, deterministically, but one virtual-clock turn later.
     from twisted.internet import defer as _defer
 
+    # CPU_DELAY[0] = virtual seconds the "thread" takes.  0: the next reactor turn.  A few milliseconds: longer than what
+    # settle() runs through, so a SimGrid delivers the network messages that are in flight before the work completes
+    # (answers that arrive while a segment is being decoded).  Drivers may change it between scenarios.
+
     async def _defer_to_thread_later(f, *args, **kwargs):
         d = _defer.Deferred()
-        vr.callLater(0, d.callback, None)
+        vr.callLater(CPU_DELAY[0], d.callback, None)
         await d
         return f(*args, **kwargs)
 
